@@ -205,7 +205,10 @@ def oracle(case):
     if not (np.array_equal(data, snap) and data.tobytes() == snap.tobytes()):
         return "the data array was modified"
     est = float.fromhex(next(iter(seen.values())))
-    theta = [Fraction(float(t)) for t in obj._compute_jackknife_samples(data, fn_plain, 1, *args, **kwargs)]
+    raw = [float(t) for t in obj._compute_jackknife_samples(data, fn_plain, 1, *args, **kwargs)]
+    if not math.isfinite(est) or not all(math.isfinite(t) for t in raw):
+        return f"non-finite result on finite data: estimate {est!r}, jackknife samples {raw[:6]} (n={n}, d={d}, N={N})"
+    theta = [Fraction(t) for t in raw]
     mean = sum(theta) / N
     ssq = sum((t - mean) ** 2 for t in theta)
     want = Fraction(n - d, d * N) * ssq
@@ -249,7 +252,7 @@ def gen_case(rng, small=False, force_d1=False, thorough=False):
     if force_d1 and N == n:
         N += 1
     seed = rng.choice([42, 0, 1, rng.randint(-40, 40), rng.randint(0, 10**6)])
-    k = 3 if not thorough else rng.choice([3, 4, 16])
+    k = 3 if not thorough else rng.choice([3, 3, 4, 16])
     cores = list(range(1, 17)) if k == 16 else [rng.randint(1, 16) for _ in range(k)]
     case = {"data": data, "f": f, "N": N, "seed": seed, "stat": stat, "sleep": rng.random() < 0.6,
             "scrambled_workers": rng.random() < 0.5, "cores": cores,
@@ -300,7 +303,7 @@ Definition st_meansq (d : list row) : Q := rdiv (qsum (map (fun x => rmult x x) 
 Definition st_wmean (d : list row) : Q :=
   rdiv (qsum (map (fun r => rmult (nth 0 r 0) (nth 1 r 0)) d)) (qsum (map (fun r => nth 1 r 0) d)).
 Definition st_scaledmean (w : Q) (d : list row) : Q := rmult (st_mean d) w.
-Inductive expected := ExpErr (e : errcls) | ExpOk (samples : list Q) (est : Q).
+Inductive expected := ExpErr (e : errcls) | ExpOk (samples : list fv) (est : fv).
 Definition err_eqb (a b : errcls) : bool :=
   match a, b with
   | TypeError, TypeError | ValueError, ValueError | IndexError, IndexError | KeyError, KeyError
@@ -308,10 +311,10 @@ Definition err_eqb (a b : errcls) : bool :=
   | _, _ => false end.
 Definition tol : Q := 1 # 1000000000.
 Definition tiny : Q := 1 # 1000000000000000000000000.
-Fixpoint cmp_samples (m i : list Q) : nat :=
+Fixpoint cmp_samples (m : list Q) (i : list fv) : nat :=
   match m, i with
   | [], [] => 0
-  | a :: m', b :: i' => Nat.max (cmpq tol a b) (cmp_samples m' i')
+  | a :: m', b :: i' => Nat.max (cmp_opt tol (Some a) b) (cmp_samples m' i')
   | _, _ => 3
   end%nat.
 (* 0 exact, 1 within tolerance, 2 the estimate differs, 3 the samples differ, 4 error behaviour differs *)
@@ -319,7 +322,7 @@ Definition check (table : list (Z * list nat)) (stat : list row -> Q) (f : Q) (N
                  (sched : list (nat * nat)) (e : expected) : nat :=
   match qjackknife_sq table row f N seed data stat sched (fun _ => None), e with
   | Err a, ExpErr b => if err_eqb a b then 0 else 4
-  | Ok (th, v), ExpOk s est =>
+  | Ok (th, v), ExpOk s (Fin est) =>
       let cs := cmp_samples th s in
       if (2 <=? cs)%nat then 3 else
       let scale := rdiv (qsum (map (fun t => rmult t t) th)) (inject_Z (Z.of_nat (length th))) in
@@ -327,11 +330,20 @@ Definition check (table : list (Z * list nat)) (stat : list row -> Q) (f : Q) (N
       let ce := if Qeq_bool e2 v then 0
                 else if Qle_bool (Qabs (e2 - v)) (tol * (e2 + v) + tiny * scale) then 1 else 2 in
       Nat.max cs ce
+  | Ok _, ExpOk _ _ => 2           (* the implementation returned nan/inf, the exact model never does *)
   | _, _ => 4
   end%nat.
 """
 
 ERR = {"TypeError", "ValueError", "IndexError", "KeyError", "AttributeError", "ZeroDivisionError"}
+
+
+def fv(x):
+    if math.isnan(x):
+        return "NaN"
+    if math.isinf(x):
+        return "PInf" if x > 0 else "NInf"
+    return f"(Fin {q(x)})"
 
 
 def rows(case):
@@ -347,7 +359,7 @@ def coq_case(case, got, sched):
     if "err" in got:
         exp = f"(ExpErr {got['err'] if got['err'] in ERR else 'OtherError'})"
     else:
-        exp = f"(ExpOk {coq_list([q(x) for x in got['samples']])} {q(got['est'])})"
+        exp = f"(ExpOk {coq_list([fv(x) for x in got['samples']])} {fv(got['est'])})"
     return f"(check {table} {stat} {q(case['f'])} {C.z(case['N'])}%Z {C.z(case['seed'])}%Z {data} {sch} {exp})"
 
 
@@ -357,7 +369,7 @@ def correspondence(ctx, model_ok=True):
     if os.path.isdir(corpus):
         for fn in sorted(os.listdir(corpus)):
             cases.append(json.load(open(os.path.join(corpus, fn)))["case"])
-    n = 90 if ctx.quick else 700
+    n = 90 if ctx.quick else 400
     for i in range(n):
         if i % 10 == 9:
             cases.append(gen_malformed(ctx.rng))
@@ -483,7 +495,7 @@ def _smaller(c):
             yield dict(c, data=d[:i] + d[i + 1:])
     if c["seed"] not in (0, 42):
         yield dict(c, seed=42)
-    if not isinstance(d[0], list) and d != list(range(len(d))):
+    if c["stat"] != "wmean" and d != list(range(len(d))):
         yield dict(c, data=list(range(len(d))))
 
 
